@@ -476,10 +476,37 @@ func c10AskReplies(r *ev.Run, g *rng.R, caseID string, innerMTU int) {
 			an, aerr = d.Ask(actx, resp, wireAddr{1}, p2p.IOVec{[]byte("request-" + caseID)})
 			close(adone)
 		}()
-		if collide {
+		sAsks := collide && t%6 == 3
+		if collide && !sAsks {
 			// S tells D something at the same moment: its group id (origin time in ms, counter 1) can coincide with
 			// the group id D chose for its ask (D's counter is also 1)
 			s.Tell(context.Background(), wireAddr{0}, p2p.IOVec{tellPayload})
+		}
+		if sAsks {
+			// ... or S asks D at that moment (a multi-part request): S's request and S's reply to D's ask then travel from the
+			// same source, both as parts of asks, possibly under one group id; D serves and records what its handler is shown
+			copy(tellPayload, "ASK--FROM-S:")
+			swg.Add(1)
+			go func() {
+				defer swg.Done()
+				for {
+					if err := d.ServeAsk(dctx, func(_ context.Context, resp []byte, m p2p.Message[wireAddr]) int {
+						dmu.Lock()
+						dTells = append(dTells, append([]byte{}, m.Payload...))
+						dmu.Unlock()
+						return copy(resp, "ok")
+					}); err != nil {
+						return
+					}
+				}
+			}()
+			swg.Add(1)
+			go func() {
+				defer swg.Done()
+				sactx, sacf := context.WithTimeout(context.Background(), 400*time.Millisecond)
+				defer sacf()
+				s.Ask(sactx, make([]byte, 16), wireAddr{0}, p2p.IOVec{tellPayload})
+			}()
 		}
 		// wait for the response fragments to be captured
 		var captured []*wireMsg
@@ -566,7 +593,10 @@ func c10AskReplies(r *ev.Run, g *rng.R, caseID string, innerMTU int) {
 				if sameGroup {
 					sig += "/shared-group-id"
 				}
-				r.Violate(sig, caseID, "a told message was delivered with bytes that are not what was told (mixed with an ask reply from the same peer)", det)
+				if sAsks {
+					sig = strings.Replace(sig, "tell-vs-reply", "request-vs-reply", 1)
+				}
+				r.Violate(sig, caseID, "a message (told, or asked as a request) was delivered with bytes that are not what was sent (mixed with an ask reply from the same peer)", det)
 			}
 		}
 		dmu.Unlock()
